@@ -28,6 +28,7 @@ theorem assign_any_right (tbl : ClassTable) : ∀ a : Ty, ca tbl false a .any = 
   | .many _ => by simp [ca]
   | .union _ => by simp [ca]
   | .subclass _ => by simp [ca]
+  | .tvar _ => by simp [ca]
 
 /-- **Never is accepted everywhere**, in both modes. -/
 theorem assign_never (tbl : ClassTable) (x : Bool) (a : Ty) : ca tbl x a Ty.never = true := by
@@ -38,25 +39,17 @@ theorem assign_union_right_iff (tbl : ClassTable) (x : Bool) (a : Ty) (bs : List
     ca tbl x a (.union bs) = true ↔ ∀ b ∈ bs, ca tbl x a b = true := by
   rw [ca_union_right, caAllR_eq_all]; simp
 
-/-- **A union accepts whatever one of its members accepts** — for every right-hand side that
-does not contain `Annotated[Never, …]` at its union/annotation top level (exception class
-`annotatedNever`, see the witness below). -/
-theorem assign_union_left_partial (tbl : ClassTable) (x : Bool) (a : Ty) (as : List Ty) (b : Ty)
-    (ha : a ∈ as) (hb : annNeverFree b = true) (h : ca tbl x a b = true) :
-    ca tbl x (.union as) b = true :=
-  ca_union_left tbl x a as ha b hb h
+/-- **A union accepts whatever one of its members accepts** — full strength, for every
+right-hand side (after the repair of `MultiValuedValue.can_assign` for `Annotated[Never]`,
+/repo commit 637d1c5; before it the statement failed on exactly that input). -/
+theorem assign_union_left (tbl : ClassTable) (x : Bool) (a : Ty) (as : List Ty) (b : Ty)
+    (ha : a ∈ as) (h : ca tbl x a b = true) : ca tbl x (.union as) b = true :=
+  ca_union_left tbl x a as ha b h
 
-/-- Witness for `annotatedNever`: the full statement is false there — `int` accepts
-`Annotated[Never]`, the union `int | str` does not (`MultiValuedValue.can_assign` finds no member
-to iterate over and reports an error). Replayed on the implementation by the C04 corpus. -/
-theorem annotatedNever_witness (tbl : ClassTable) (x : Bool) :
+/-- Regression witness of the repaired defect: both `int` and `int | str` accept `Annotated[Never]`. -/
+theorem annotatedNever_fixed (tbl : ClassTable) (x : Bool) :
     ca tbl x (.typed C.int) (.annotated Ty.never) = true ∧
-    ca tbl x (.union [.typed C.int, .typed C.str]) (.annotated Ty.never) = false := by
+    ca tbl x (.union [.typed C.int, .typed C.str]) (.annotated Ty.never) = true := by
   constructor <;> simp [Ty.never, ca, caAllR]
-
-/-! Non-vacuity of `assign_union_left_partial`: a non-trivial instance of its hypotheses. -/
-example : (Ty.typed C.float) ∈ [Ty.typed C.str, Ty.typed C.float] ∧
-    annNeverFree (.union [.known (.int 1), .annotated (.typed C.bool)]) = true := by
-  simp [annNeverFree, annNeverFreeL]
 
 end Pya
